@@ -285,7 +285,10 @@ def build_metabook(spec):
     c.wikis = [mb.WikiConf(ident=None, baseurl=f"http://{LOCAL_HOST}/w/")]
     cur = None
     for it in spec["metabook"]:
-        art = mb.Article(title=it["title"], revision=it["rev"])
+        rev = it["rev"]
+        if rev is not None and spec.get("revs_as_str"):
+            rev = str(rev)  # JSON metabooks and collection pages carry revision ids as strings
+        art = mb.Article(title=it["title"], revision=rev)
         if it.get("chapter"):
             if cur is None or cur.title != it["chapter"]:
                 cur = mb.Chapter(title=it["chapter"], items=[])
